@@ -1108,11 +1108,11 @@ impl Persistable for Bytes {
     }
 }
 
-pub(crate) fn to_bytes<T>(table: &T) -> Option<Vec<u8>>
+pub(crate) fn to_bytes<T>(table: &T) -> Result<Vec<u8>, write_fonts::error::Error>
 where
     T: FontWrite + Validate,
 {
-    write_fonts::dump_table(table).ok()
+    write_fonts::dump_table(table)
 }
 
 #[cfg(test)]
